@@ -15,6 +15,32 @@ def rel_to(link_path, target_path):
     return os.path.relpath(target_path, os.path.dirname(link_path))
 
 
+def lossy(s_):
+    return s_.encode("utf-8", "surrogateescape").decode("utf-8", "replace")
+
+
+def resolve_dir(cwd_abs, dpart):
+    """Real directory a printed directory part denotes, read relative to the cwd. fselect prints names lossily
+    (invalid bytes become U+FFFD): such a component is matched against the real entries of the directory reached so far."""
+    cur = "/" if os.path.isabs(dpart) else cwd_abs
+    for comp in [c for c in dpart.split("/") if c not in ("", ".")]:
+        cur = os.path.realpath(cur)
+        if comp == "..":
+            cur = os.path.dirname(cur)
+            continue
+        cand = os.path.join(cur, comp)
+        if "\ufffd" in comp and not os.path.lexists(cand):
+            try:
+                m = [e for e in os.listdir(cur) if lossy(e) == comp]
+            except OSError:
+                return None
+            if len(m) != 1:
+                return None
+            cand = os.path.join(cur, m[0])
+        cur = cand
+    return os.path.realpath(cur) if os.path.isdir(cur) else None
+
+
 class Check:
     id = PROP
     level = "exploration"
@@ -94,6 +120,14 @@ class Check:
                 nodes.append({"path": lp, "type": "symlink", "target": spell(ROOT + "/no/such")})
             else:
                 nodes.append({"path": lp, "type": "symlink", "target": name})
+        if rng.random() < 0.08:
+            # names are byte strings: a directory whose name is not valid UTF-8, reachable only through a link
+            bad = SIB + "/caf\udce9"
+            if bad not in have:
+                nodes.append({"path": bad, "type": "dir"})
+                nodes.append({"path": bad + "/inside.txt", "type": "file", "content": "x"})
+                lp = ROOT + "/l_legacy"
+                nodes.append({"path": lp, "type": "symlink", "target": ("$W/" + bad) if rng.random() < 0.5 else rel_to(lp, bad)})
         cwd = rng.choice(["", "", OUTER, ROOT])
         if cwd == "":
             sp = rng.choice(["rel", "dotrel", "abs"])
@@ -187,7 +221,7 @@ class Check:
                 viols.append(Violation(PROP, "C18.term", ["C18.term", res.sim or ("signal" if res.signal is not None else "status_%s" % res.status), tag],
                                        {"query": q, "cwd": cwd, "outcome": res.summary(), "last_events": res.log[-4:]}))
                 return viols
-            rows = [r[0].decode("utf-8", "surrogateescape") for r in res.rows(1)]
+            rows = [r[0].decode("utf-8", "replace") for r in res.rows(1)]
             # reachability model on the materialised world
             real_root = os.path.realpath(root_abs)
             reach = [os.path.realpath(r) for r in roots_abs]
@@ -228,12 +262,16 @@ class Check:
             ids = []
             for p in rows:
                 dpart, base = os.path.split(p)
-                dabs = os.path.join(cwd_abs, dpart) if not os.path.isabs(dpart) else dpart
-                if not os.path.isdir(dabs):
+                real_dir = resolve_dir(cwd_abs, dpart)
+                if real_dir is None:
                     viols.append(Violation(PROP, "C18.reach", ["C18.reach", "row_resolves_to_nothing", tag],
                                            {"query": q, "cwd": cwd, "row": p, "stderr": res.stderr[:300].decode("utf-8", "replace")}))
                     return viols
-                ident = (os.path.realpath(dabs), base)
+                if "\ufffd" in base and not os.path.lexists(os.path.join(real_dir, base)):
+                    m_ = [e for e in os.listdir(real_dir) if lossy(e) == base]
+                    if len(m_) == 1:
+                        base = m_[0]
+                ident = (real_dir, base)
                 if not os.path.lexists(os.path.join(ident[0], base)):
                     viols.append(Violation(PROP, "C18.reach", ["C18.reach", "row_names_no_entry", tag], {"query": q, "cwd": cwd, "row": p}))
                     return viols
